@@ -10,6 +10,8 @@ mod treeparse;
 mod polys;
 mod c01;
 mod c03;
+mod c07;
+mod c08;
 mod c09;
 mod c10;
 mod c11;
@@ -47,6 +49,8 @@ fn real_main() {
             let ok = match id {
                 "C01" | "C02" => c01::replay(&toks, &mut out, req),
                 "C03" => c03::replay(&toks, &mut out),
+                "C07" => c07::replay(&toks, &mut out),
+                "C08" => c08::replay(&toks, &mut out),
                 "C09" => c09::replay(&toks, &mut out),
                 "C10" => c10::replay(&toks, &mut out),
                 "C11" => c11::replay(&toks, &mut out),
@@ -63,6 +67,8 @@ fn real_main() {
             "C01" => c01::generate(&mut rng, thorough, &mut out, false),
             "C02" => c01::generate(&mut rng, thorough, &mut out, true),
             "C03" => c03::generate(&mut rng, thorough, &mut out),
+            "C07" => c07::generate(&mut rng, thorough, &mut out),
+            "C08" => c08::generate(&mut rng, thorough, &mut out),
             "C09" => c09::generate(&mut rng, thorough, &mut out),
             "C10" => c10::generate(&mut rng, thorough, &mut out),
             "C11" => c11::generate(&mut rng, thorough, &mut out),
